@@ -26,16 +26,19 @@ def kernel_env(k, m):
     return env
 
 def gen_probe(t):
+    """the rustc probe is generated from NAMES only (struct / field / const / flag member / variant names): values and
+    layouts are whatever the compiler reports, also for items the translator could not evaluate (names-only fallback)"""
     out = ['fn gen_layout() {']
     for n, fs in t['structs']:
         out.append('    println!("struct %s {} {}", size_of::<%s>(), align_of::<%s>());' % (n, n, n))
         for f, ty in fs:
+            if ty.get('private'): continue       # not nameable from outside the crate
             out.append('    {{ let z: %s = unsafe {{ zeroed() }}; println!("field %s %s {} {}", offset_of!(%s, %s), size_of_val(&z.%s)); }}'
                        % (n, n, f, n, f, f))
     out.append('}')
     out.append('fn gen_consts() {')
     for n, ty, v, pub in t['consts']:
-        if pub: out.append('    println!("const %s {}", %s as u128);' % (n, n))
+        if pub and ty in rust_abi.INT_TYPES: out.append('    println!("const %s {}", %s as u128);' % (n, n))
     for n, ty, ms in t['bitflags']:
         for mname, v in ms:
             out.append('    println!("flag %s %s {}", %s::%s.bits() as u128);' % (n, mname, n, mname))
@@ -44,6 +47,9 @@ def gen_probe(t):
             out.append('    println!("enum %s %s {}", %s::%s as u32);' % (n, v, n, v))
     out.append('}')
     return '\n'.join(out) + '\n'
+
+def has_opaque(ty):
+    return 'opaque' in ty or ('arr' in ty and has_opaque(ty['arr']))
 
 def gen_cprobe(k, m):
     c = ['#include <stdio.h>', '#include <stddef.h>', '#include <linux/fuse.h>', '#include <linux/virtio_fs.h>',
@@ -109,7 +115,14 @@ def run_check(tier, seed):
     t_lenient = None
     if t is None:
         try: t_lenient = rust_abi.translate(REPO, lenient_conv=True)
-        except rust_abi.TranslateError: t_lenient = None
+        except rust_abi.TranslateError:
+            # names-only fallback: structs / constants / flags / discriminants the reader cannot evaluate are kept by
+            # name, and the rustc probe reports what the compiler makes of them (class: the failing-input search must
+            # not stop because the translator met source it cannot read)
+            try: t_lenient = rust_abi.translate(REPO, lenient_names=True)
+            except rust_abi.TranslateError as ex2:
+                t_lenient = None
+                broken.append({'kind': 'translator', 'item': 'translator/rust_abi.py (names-only fallback)', 'error': str(ex2)})
     # 2. Coq
     audit = None
     if t is not None:
@@ -183,7 +196,14 @@ def run_check(tier, seed):
     if tt is not None and pr is not None:
         renv = dict((n, fs) for n, fs in tt['structs'])
         # 4b. translator + python layout vs rustc
+        opaque_structs = set(n for n, fs in tt['structs'] if any(has_opaque(ft) or ft.get('private') for f, ft in fs))
+        def untranslated(n, seen=()):
+            # a struct with an unreadable field, or that embeds one
+            if n in opaque_structs: return True
+            def named(ft): return ft['named'] if 'named' in ft else (named(ft['arr']) if 'arr' in ft else None)
+            return any(named(ft) and named(ft) not in seen and named(ft) in renv and untranslated(named(ft), seen + (n,)) for f, ft in renv[n])
         for n, fs in tt['structs']:
+            if untranslated(n): continue
             sz, al = L.size_align(renv, {'named': n}); evals += 1
             if pr['struct'].get(n) != [sz, al]:
                 broken.append({'kind': 'translator-vs-rustc', 'struct': n, 'translated': [sz, al], 'rustc': pr['struct'].get(n)})
@@ -193,18 +213,20 @@ def run_check(tier, seed):
                 if pr['field'].get((n, f)) != (o, s):
                     broken.append({'kind': 'translator-vs-rustc', 'struct': n, 'field': f, 'translated': (o, s), 'rustc': pr['field'].get((n, f))})
         for n, ty, v, pub in tt['consts']:
-            if pub:
+            if pub and v is not None and ty in rust_abi.INT_TYPES:
                 evals += 1
                 if pr['const'].get(n) != v: broken.append({'kind': 'translator-vs-rustc', 'const': n, 'translated': v, 'rustc': pr['const'].get(n)})
         for n, ty, ms in tt['bitflags']:
             for mn, v in ms:
+                if v is None: continue
                 evals += 1
                 if pr['flag'].get((n, mn)) != v: broken.append({'kind': 'translator-vs-rustc', 'flag': n + '::' + mn, 'translated': v, 'rustc': pr['flag'].get((n, mn))})
         for n, vs in tt['enums']:
             for vn, v in vs:
+                if v is None: continue
                 evals += 1
                 if pr['enum'].get((n, vn)) != v: broken.append({'kind': 'translator-vs-rustc', 'enum': n + '::' + vn, 'translated': v, 'rustc': pr['enum'].get((n, vn))})
-        arms = dict((a, b) for a, b in tt['opcode_from']['arms']); disc = dict(tt['enums'][0][1])
+        arms = dict((a, b) for a, b in tt['opcode_from']['arms']); disc = dict((vn, pr['enum'].get(('Opcode', vn)) if v is None else v) for vn, v in tt['enums'][0][1])
         for nn, got in (pr['opfrom'].items() if not tt['opcode_from'].get('error') else []):
             evals += 1
             want = disc[arms.get(nn, tt['opcode_from']['default'])]
@@ -226,8 +248,23 @@ def run_check(tier, seed):
             kleaves = [(a, o - base, w, s) for a, o, w, s in sel]
             # rust leaves from rustc's own offsets for top-level fields + translated nested layout
             rl = []
+            if rs not in renv:
+                findings.append({'what': 'crate struct %s (paired with kernel %s) is not a `pub struct` of the ABI files any more' % (rs, ks)})
+                continue
             for f, ft in renv[rs]:
                 o, s = pr['field'].get((rs, f), (None, None))
+                if has_opaque(ft) or (ft.get('private') and o is None) or ('named' in ft and ft['named'] in renv and untranslated(ft['named'])):
+                    # names-only fallback: the type was not read.  The field matches iff rustc puts it exactly where the
+                    # kernel has the field of that name (same offset, same extent); then it is credited with the kernel's leaves
+                    fa = alias.get(rs + '.' + f, f)
+                    kl_f = [l for l in kleaves if L.head(l[0]) == fa]
+                    if ft.get('private') and o is None:
+                        # cannot be probed: place it after the previous field
+                        o = (rl[-1][1] + rl[-1][2]) if rl else 0
+                        s = (kl_f[-1][1] + kl_f[-1][2] - kl_f[0][1]) if kl_f else 0
+                    if kl_f and o == kl_f[0][1] and s == kl_f[-1][1] + kl_f[-1][2] - kl_f[0][1]: rl += kl_f
+                    else: rl.append((fa, o if o is not None else -1, s, None))
+                    continue
                 for path, off, w, sg in L.flatten(renv, ft, f, 0):
                     rl.append((alias.get(rs + '.' + path, path), (o if o is not None else -1) + off, w, sg))
             rsz = pr['struct'].get(rs, [None])[0]
@@ -243,6 +280,8 @@ def run_check(tier, seed):
         for a, b in m['const_pairs']:
             evals += 1; nontriv.add(('const', a))
             have = pr['const'].get(a, dict((c[0], c[2]) for c in tt['consts']).get(a))
+            if have is None and a not in pr['const']:
+                broken.append({'kind': 'coverage', 'name': 'constant %s is neither evaluated by the translator nor visible to the probe' % a}); continue
             if have != kc.get(b): findings.append({'what': 'constant %s = %s but kernel %s = %s' % (a, have, b, kc.get(b))})
         for g, ps in m['bitflag_pairs'].items():
             for a, b in ps:
@@ -287,6 +326,37 @@ def run_check(tier, seed):
                     if vals[a] != st[s] % (1 << widths[a]):
                         findings.append({'what': 'Attr::with_flags: %s = %d, expected %s mod 2^%d = %d' % (a, vals[a], s, widths[a], st[s] % (1 << widths[a])), 'input': st})
                 if vals['flags'] != 0xabcd0000 + pi: findings.append({'what': 'Attr::with_flags drops flags', 'input': st})
+            elif tag == 'attr_from_stat':
+                # twin entry point: From<stat64> for Attr (what GETATTR / SETATTR replies are built with)
+                st = pr['conv'][(pi, 'stat_in')]
+                for a, s in m['attr_stat_pairs']:
+                    evals += 1; nontriv.add(('conv-from', pi, a))
+                    if vals[a] != st[s] % (1 << widths[a]):
+                        findings.append({'what': 'Attr::from(stat64): %s = %d, expected %s mod 2^%d = %d' % (a, vals[a], s, widths[a], st[s] % (1 << widths[a])), 'input': st})
+                if vals['flags'] != 0: findings.append({'what': 'Attr::from(stat64): flags = %d, expected 0' % vals['flags'], 'input': st})
+            elif tag == 'entry_out':
+                # twin entry point: From<Entry> for EntryOut (LOOKUP / CREATE / MKNOD / READDIRPLUS ... replies)
+                st = pr['conv'][(pi, 'stat_in')]; ein = pr['conv'][(pi, 'entry_in')]; oa = pr['conv'][(pi, 'entry_out_attr')]
+                for a, s in m['entry_out_pairs']:
+                    evals += 1; nontriv.add(('conv-entry', pi, a))
+                    got = oa['flags'] if a == 'attr.flags' else vals[a]
+                    if got != ein[s]:
+                        findings.append({'what': 'EntryOut::from(Entry): %s = %d, expected %s = %d' % (a, got, s, ein[s]), 'input': {'entry': ein, 'attr': st}})
+                for a, s in m['attr_stat_pairs']:
+                    evals += 1
+                    if oa[a] != st[s] % (1 << widths[a]):
+                        findings.append({'what': 'EntryOut::from(Entry): attr.%s = %d, expected attr.%s mod 2^%d = %d' % (a, oa[a], s, widths[a], st[s] % (1 << widths[a])),
+                                         'input': {'entry': ein, 'attr': st}})
+            elif tag == 'filelock':
+                evals += 1
+                for a, b, c in (('in_start', 'start', 'back_start'), ('in_end', 'end', 'back_end'), ('in_type', 'lock_type', 'back_type'), ('in_pid', 'pid', 'back_pid')):
+                    if not (vals[a] == vals[b] == vals[c]):
+                        findings.append({'what': 'FileLock conversions: wire %s = %d -> %s = %d -> wire = %d' % (a[3:], vals[a], b, vals[b], vals[c]), 'input': vals})
+            elif tag == 'context':
+                evals += 1
+                for a in ('uid', 'gid', 'pid'):
+                    if vals[a] != vals['in_' + a]:
+                        findings.append({'what': 'Context::from(&InHeader): %s = %d, expected the header\'s %d' % (a, vals[a], vals['in_' + a]), 'input': vals})
             elif tag == 'stat_of_attr':
                 at = pr['conv'][(pi, 'attr_of_stat')]
                 for a, s in m['attr_stat_pairs']:
@@ -306,6 +376,15 @@ def run_check(tier, seed):
                     evals += 1
                     if vals[a] != sv[s] % (1 << kw[a]): findings.append({'what': 'Kstatfs::from: %s = %d, expected %s mod 2^%d' % (a, vals[a], s, kw[a]), 'input': sv})
                 if vals['padding'] != 0 or vals['spare'] != 0: findings.append({'what': 'Kstatfs::from: padding/spare not zero', 'input': sv})
+        # every `impl From<A> for B` of the ABI files must be a conversion this check evaluates (a new one is a new way
+        # for host data to reach the wire that nothing above looks at)
+        known_conv = m.get('probed_conversions', {})
+        for fi in sorted(set(tt.get('from_impls', []))):
+            if fi not in known_conv:
+                broken.append({'kind': 'coverage', 'name': 'conversion `impl From<%s> for %s` of the ABI files is not evaluated by any probe or theorem' % tuple(fi.split('->'))})
+        need_tags = ('attr_of_stat', 'attr_from_stat', 'entry_out', 'stat_of_attr', 'attr_roundtrip', 'stat_of_setattr', 'kstatfs', 'filelock', 'context')
+        missing_tags = [tg for tg in need_tags if not any(k[1] == tg for k in pr['conv'])]
+        if missing_tags: broken.append({'kind': 'coverage', 'name': 'conversion probes did not run', 'missing': missing_tags})
         if pr['conv']:
             samples.append({'conversion_probe': pr['conv'].get((4, 'stat_in')), 'attr': pr['conv'].get((4, 'attr_of_stat'))})
 
@@ -327,6 +406,17 @@ def run_check(tier, seed):
                     st = pr['conv'][(pi, 'stat_in')]
                     for a in widths:
                         conv_items.append('(apply_conv rust_conv_attr_of_stat %s (fun _ => %d) "%s" =? %d)' % (fn_of(st), vals['flags'], a, vals[a]))
+                elif tag == 'attr_from_stat':
+                    st = pr['conv'][(pi, 'stat_in')]
+                    for a in widths:
+                        conv_items.append('(apply_conv rust_conv_attr_from_stat %s (fun _ => 77) "%s" =? %d)' % (fn_of(st), a, vals[a]))
+                elif tag == 'entry_out':
+                    st = pr['conv'][(pi, 'stat_in')]; ein = pr['conv'][(pi, 'entry_in')]; oa = pr['conv'][(pi, 'entry_out_attr')]
+                    src = dict(ein); src.update(('attr.' + kk, vv) for kk, vv in st.items())
+                    for a in vals:
+                        conv_items.append('(apply_conv rust_conv_entry_out %s (fun _ => 77) "%s" =? %d)' % (fn_of(src), a, vals[a]))
+                    for a in widths:
+                        conv_items.append('(apply_conv rust_conv_entry_out %s (fun _ => 77) "attr.%s" =? %d)' % (fn_of(src), a, oa[a]))
                 elif tag == 'stat_of_attr':
                     at = pr['conv'][(pi, 'attr_of_stat')]
                     for s_ in vals:
@@ -361,7 +451,7 @@ def run_check(tier, seed):
     ev.cov['evaluations'] = evals
     ev.cov['distinct_nontrivial'] = len(nontriv)
     ev.cov['rule'] = ('every crate struct/const/flag/enum item compared with its kernel counterpart using rustc-probed and gcc-probed values; '
-                      'Opcode::from evaluated on 0..4999, 2^k-1,2^k,2^k+1 and specials; conversions on 9 boundary stat valuations with pairwise distinct fields; '
+                      'Opcode::from evaluated on 0..4999, 2^k-1,2^k,2^k+1 and specials; conversions (Attr::with_flags and its twins From<stat64> for Attr / From<Entry> for EntryOut, stat64 from Attr / SetattrIn, Kstatfs, FileLock, Context) on 9 boundary valuations with pairwise distinct fields; every From impl of the ABI files must be one of them; '
                       'distinct_nontrivial counts distinct (kind,item) pairs compared: struct pairs, constants, flag members, opcodes, Opcode::from inputs that are supported or < 64, conversion (probe,field) pairs')
     ev.cov['samples'] = samples[:5] or [{'note': 'no implementation probe ran'}]
 
